@@ -178,17 +178,22 @@ def scenario(sseed, res, direction=None, cfg=None):
         bases = {}
         hold, stopped = {}, set()
         tun = [f"w{i}" for i in range(R.randint(1, 5))]
+        # a straggler: one worker that keeps its trial for a long time, so that rounds stay partly filled while others move on
+        slow = tun[0] if len(tun) >= 2 and R.random() < 0.4 else None
         steps = 0
         limit = R.randint(20, 400)
         aborted = False
         while steps < limit and not aborted and (hold or len(stopped) < len(tun)):
             steps += 1
             w = R.choice(tun)
-            if w in hold and R.random() < 0.7:
+            if w in hold and R.random() < (0.06 if w == slow else 0.7):
                 t = hold.pop(w)
                 oc = R.choice(["C"] * 8 + ["NAN", "INV", "FAIL"])
                 if oc in ("C", "NAN"):
                     val = None if oc == "NAN" else R.choice([0, 1, 1, 2, 2, 3, 5, -1])
+                    if oc == "C" and w == slow and R.random() < 0.7:
+                        # the straggler's late result is a good one: whoever was promoted in the meantime has to stand the comparison
+                        val = -2 if o.objective.direction == "min" else 7
                     lines.append(dict(suite="hyperband", op="update", id=int(t.trial_id), value=val))
                     expect.append("ok")
                     quiet(o.update_trial, t.trial_id, {"score": float("nan") if val is None else float(val)}, step=0)
